@@ -178,7 +178,7 @@ func (cfg Config) Annotate(n ast.Node) bool {
 	var changed bool
 
 	if cfg.Labels {
-		if simplifyLabels(n) {
+		if simplifyLabels(n, cfg.Ellipsis) {
 			changed = true
 		}
 	}
